@@ -22,11 +22,14 @@ RETRY = dict(stop_max_attempt_number=3, wait_fixed=1)
 NOPATH = dict(loc="none", k=-1, i=-1, gen=0)
 
 
-def make_frame(n, seed=0, kind="point"):
+def make_frame(n, seed=0, kind="point", dup=0):
     import spatialpandas as sp
     rng = np.random.RandomState(seed)
     xs = rng.randint(0, 64, size=n)
     ys = rng.randint(0, 64, size=n)
+    if dup:                      # only `dup` distinct sites (+ the two corners): many requested output partitions come out empty
+        xs = np.array([xs[i % dup] for i in range(n)])
+        ys = np.array([ys[i % dup] for i in range(n)])
     els = [geom.El([[[[int(x), int(y)]]]]) for x, y in zip(xs, ys)]
     els[0] = geom.El([[[[0, 0]]]])
     els[-1] = geom.El([[[[64, 64]]]])
@@ -39,12 +42,12 @@ def make_frame(n, seed=0, kind="point"):
 
 
 class Cfg:
-    def __init__(self, n=8, nin=2, nout=3, mode="inside", overwrite=False, prev=0, p=6, compression="snappy", seed=0):
-        self.n, self.nin, self.nout, self.mode, self.overwrite, self.prev, self.p, self.compression, self.seed = \
-            n, nin, nout, mode, overwrite, prev, p, compression, seed
+    def __init__(self, n=8, nin=2, nout=3, mode="inside", overwrite=False, prev=0, p=6, compression="snappy", seed=0, dup=0):
+        self.n, self.nin, self.nout, self.mode, self.overwrite, self.prev, self.p, self.compression, self.seed, self.dup = \
+            n, nin, nout, mode, overwrite, prev, p, compression, seed, dup
 
     def key(self):
-        return f"n{self.n}_in{self.nin}_out{self.nout}_{self.mode}_ow{int(self.overwrite)}_prev{self.prev}"
+        return f"n{self.n}_in{self.nin}_out{self.nout}_{self.mode}_ow{int(self.overwrite)}_prev{self.prev}" + (f"_dup{self.dup}" if self.dup else "")
 
     def __repr__(self):
         return f"Cfg({self.key()}, p={self.p}, compression={self.compression})"
@@ -64,7 +67,7 @@ def run_pack(cfg: Cfg, plan=None, scheduler="synchronous", workers=None, delays=
     r.root = root or tempfile.mkdtemp(prefix="pack-", dir=os.environ.get("TMPDIR") or "/var/tmp")
     r.ds = os.path.join(r.root, "ds.parq")
     os.makedirs(os.path.join(r.root, "scratch"), exist_ok=True)
-    df, els = make_frame(cfg.n, cfg.seed)
+    df, els = make_frame(cfg.n, cfg.seed, dup=cfg.dup)
     r.df, r.els = df, els
     kw = dict(scheduler=scheduler)
     if workers:
